@@ -454,8 +454,10 @@ func TestC09(t *testing.T) {
 			"ref": func(t *rapid.T) {
 				add(c09Op{Op: "ref", Pkg: pk.Draw(t, "p"), Kind: pick(t, "kind", []string{"val", "type", "func"}), Ctx: pick(t, "ctx", []string{"body", "body", "init", "sig", "typedecl"})})
 			},
-			"refdup": func(t *rapid.T) { add(c09Op{Op: "ref", Pkg: rapid.IntRange(0, 2).Draw(t, "p"), Kind: "val", Ctx: "body"}) },
-			"force":  func(t *rapid.T) { add(c09Op{Op: "force", Pkg: pk.Draw(t, "p")}) },
+			"refdup": func(t *rapid.T) {
+				add(c09Op{Op: "ref", Pkg: rapid.IntRange(0, 2).Draw(t, "p"), Kind: "val", Ctx: "body"})
+			},
+			"force":   func(t *rapid.T) { add(c09Op{Op: "force", Pkg: pk.Draw(t, "p")}) },
 			"discard": func(t *rapid.T) { add(c09Op{Op: "discard", Pkg: pk.Draw(t, "p")}) },
 			"decl-pkg": func(t *rapid.T) {
 				if avoid["c09-pkg-decl-collision"] {
